@@ -17,6 +17,10 @@ type filterSpec struct {
 	Value string   `json:"value"`
 	Pod   *v1.Pod  `json:"pod"`
 	Node  *v1.Node `json:"node"`
+	// the objects the same listers showed one listing earlier, under the same name and UID (the attribution of today's objects must
+	// not depend on them)
+	PrevPod  *v1.Pod  `json:"prev_pod,omitempty"`
+	PrevNode *v1.Node `json:"prev_node,omitempty"`
 }
 
 const fKey, fVal = "customer", "shared"
@@ -106,7 +110,7 @@ func nodeLabelShapes() []map[string]string {
 
 func mkFilterPod(sel map[string]string, aff *v1.Affinity, owners []metav1.OwnerReference, ann map[string]string) *v1.Pod {
 	return &v1.Pod{
-		ObjectMeta: metav1.ObjectMeta{Name: "p", Namespace: "ns", OwnerReferences: owners, Annotations: ann},
+		ObjectMeta: metav1.ObjectMeta{Name: "p", Namespace: "ns", UID: "uid-p", OwnerReferences: owners, Annotations: ann},
 		Spec:       v1.PodSpec{NodeSelector: sel, Affinity: aff},
 		Status:     v1.PodStatus{Phase: v1.PodRunning},
 	}
@@ -137,7 +141,7 @@ func filterEngine(prop, tier string, rng *rand.Rand, replay []json.RawMessage) (
 						for _, ann := range annotShapes() {
 							node := &v1.Node{ObjectMeta: metav1.ObjectMeta{Name: "n", Labels: nls[i%len(nls)]}}
 							i++
-							specs = append(specs, filterSpec{kv[0], kv[1], mkFilterPod(sel, aff, own, ann), node})
+							specs = append(specs, filterSpec{Key: kv[0], Value: kv[1], Pod: mkFilterPod(sel, aff, own, ann), Node: node})
 						}
 					}
 				}
@@ -191,7 +195,7 @@ func filterEngine(prop, tier string, rng *rand.Rand, replay []json.RawMessage) (
 				labels[keys[rng.Intn(len(keys))]] = vals[rng.Intn(len(vals))]
 			}
 			node := &v1.Node{ObjectMeta: metav1.ObjectMeta{Name: "n", Labels: labels}}
-			specs = append(specs, filterSpec{keys[rng.Intn(2)], vals[rng.Intn(2)], mkFilterPod(sel, aff, own, ann), node})
+			specs = append(specs, filterSpec{Key: keys[rng.Intn(2)], Value: vals[rng.Intn(2)], Pod: mkFilterPod(sel, aff, own, ann), Node: node})
 		}
 	}
 
@@ -200,11 +204,36 @@ func filterEngine(prop, tier string, rng *rand.Rand, replay []json.RawMessage) (
 		Rule: "exhaustive product of the small-scope universe (selector shapes x affinity shapes x owner kinds x static annotation, node label shapes cycled) " +
 			"plus a seeded random stream of longer selector/affinity lists; a case is non-trivial when the pod or node is attributed by at least one of the three filters; " +
 			"distinct = distinct (pod shape, node labels, key, value, answers)"}
+	if replay == nil {
+		for i := 1; i < len(specs); i++ {
+			specs[i].PrevPod, specs[i].PrevNode = specs[i-1].Pod, specs[i-1].Node
+		}
+	}
 	for _, s := range specs {
 		in := NewInterner()
 		g := controller.NewPodAffinityFilterFunc(s.Key, s.Value)(s.Pod)
 		d := controller.NewPodDefaultFilterFunc()(s.Pod)
 		b := controller.NewNodeLabelFilterFunc(s.Key, s.Value)(s.Node)
+		// the same three questions through the listers the controller really uses (one NodeGroupLister and one default lister,
+		// listing yesterday's objects first): their answers are the observation
+		{
+			pl := &snapPodLister{j: &Journal{}}
+			nl := &snapNodeLister{}
+			opts := controller.NodeGroupOptions{Name: "g", LabelKey: s.Key, LabelValue: s.Value}
+			gl := controller.NewNodeGroupLister(pl, nl, opts)
+			dl := controller.NewDefaultNodeGroupLister(pl, nl, opts)
+			ask := func(pod *v1.Pod, node *v1.Node) (bool, bool, bool) {
+				pl.pods, nl.nodes = []*v1.Pod{pod}, []*v1.Node{node}
+				gp, _ := gl.Pods.List()
+				dp, _ := dl.Pods.List()
+				gn, _ := gl.Nodes.List()
+				return len(gp) == 1, len(dp) == 1, len(gn) == 1
+			}
+			if s.PrevPod != nil && s.PrevNode != nil {
+				ask(s.PrevPod, s.PrevNode)
+			}
+			g, d, b = ask(s.Pod, s.Node)
+		}
 		coq := fmt.Sprintf("(Build_filter_case %s %s %s %s (%s, %s, %s))", cz(in.ID(s.Key)), cz(in.ID(s.Value)),
 			in.cpod(s.Pod), in.cnode(s.Node), cbool(g), cbool(d), cbool(b))
 		sp, _ := json.Marshal(s)
